@@ -219,7 +219,7 @@ func runCase(c Case, choose func(int, []string) int) result {
 			firstWrite = i
 		}
 	}
-	failedGet, failedCacheWrite, failedPersRead := false, false, false
+	failedGet, failedCacheWrite, failedCacheDelete, failedPersRead := false, false, false, false
 	for _, s := range log {
 		if s.Failed && !strings.HasPrefix(s.Op, "pers.") && (strings.HasSuffix(s.Op, ".Get") || strings.HasSuffix(s.Op, ".Exists")) {
 			failedGet = true // a CACHE-tier read error (hybrid treats it as a miss: listed finding)
@@ -227,8 +227,11 @@ func runCase(c Case, choose func(int, []string) int) result {
 		if s.Failed && strings.HasPrefix(s.Op, "pers.") && (strings.HasSuffix(s.Op, ".Get") || strings.HasSuffix(s.Op, ".Exists")) {
 			failedPersRead = true // a persistent-tier read error must abort the operation
 		}
-		if s.Failed && !strings.HasPrefix(s.Op, "pers.") && (strings.HasSuffix(s.Op, ".Set") || strings.HasSuffix(s.Op, ".Delete")) {
-			failedCacheWrite = true
+		if s.Failed && !strings.HasPrefix(s.Op, "pers.") && strings.HasSuffix(s.Op, ".Set") {
+			failedCacheWrite = true // hybrid.Set swallows it (listed finding)
+		}
+		if s.Failed && !strings.HasPrefix(s.Op, "pers.") && strings.HasSuffix(s.Op, ".Delete") {
+			failedCacheDelete = true // hybrid.Delete must report it: a different root cause, never absorbed by the Set finding
 		}
 	}
 	wbAfter := false
@@ -239,8 +242,10 @@ func runCase(c Case, choose func(int, []string) int) result {
 	}
 	isList := strings.HasPrefix(c.Prog, "append")
 	switch {
+	case failedCacheDelete:
+		shape = "cache-delete-failure-swallowed"
 	case failedCacheWrite:
-		shape = "cache-write-failure-swallowed"
+		shape = "cache-set-failure-swallowed"
 	case wbAfter:
 		shape = "async-writeback"
 	case failedPersRead && isList && !wbAfter:
